@@ -487,6 +487,10 @@ def run(ctx):
                                 if fr[4] is not None and np.abs(fr[4] - xyz[f]).max() > 2e-6 * max(1.0, mag) + (0 if base == "trr" else 5.1e-4):
                                     viol("native-layout|value|%s|magnitude-%g" % (base, mag), "frame %d of the .%s file holds coordinates %s for %s" % (f, ext, fr[4].ravel()[:3], xyz[f].ravel()[:3]), rp)
                                     break
+                # ---- the bytes of the .trr file read by the Lean model (Model/Xdr.lean, theorem c01_trr_roundtrip): exact comparison
+                if base == "trr" and os.path.getsize(path) <= 40000:
+                    reqs.append("trr " + open(path, "rb").read().hex())
+                    meta.append(("trrbytes", k, ext, (np.asarray(time, dtype=np.float32), None if cellmode == "none" else t.unitcell_vectors.astype(np.float32), xyz.astype(np.float32), na), rp))
                 # ---- time
                 stores_time = base in ("h5", "xtc", "trr", "nc", "gro", "dtr", "rst7", "ncrst")
                 if stores_time and np.abs(l.time - time).max() > 1e-5 * max(1.0, float(np.abs(time).max())):
@@ -553,6 +557,32 @@ def run(ctx):
                 want = [stem + "." + s for s in m.split(",")]
                 if files != want:
                     ctx.broke("correspondence:restart-names", "case %d: files %s, the model names %s" % (k, files[:4], want[:4]))
+                continue
+            if what == "trrbytes":
+                tm_, bx_, xy_, na_ = data
+                ctx.count(".trr files read byte by byte by the Lean model")
+                if not m.startswith("ok"):
+                    viol("native-layout|trr|model-reader", "the byte-level model cannot follow the .trr file mdtraj wrote (%s)" % m[:60], rp)
+                    continue
+                frs = m[3:].split(";")
+                if len(frs) != len(tm_):
+                    viol("native-layout|count|trr", "the byte-level model finds %d frames in the .trr file, expected %d" % (len(frs), len(tm_)), rp)
+                    continue
+                for f, fr in enumerate(frs):
+                    head, rest_ = fr.split(" B ")
+                    bxs, xs = rest_.split(" X ")
+                    hn, hstep, ht, hl = head.split()
+                    fq = lambda a: [Fraction(v) for v in a.split()]
+                    exact = lambda arr: [Fraction(float(v)) for v in np.asarray(arr, dtype=np.float32).ravel()]
+                    if int(hn) != na_ or Fraction(ht) != Fraction(float(tm_[f])):
+                        viol("native-time|trr|bytes", "frame %d of the .trr file: %s atoms, time %s; the trajectory has %d atoms, time %r" % (f, hn, ht, na_, float(tm_[f])), rp)
+                        break
+                    if fq(bxs) != (exact(bx_[f]) if bx_ is not None else [Fraction(0)] * 9):
+                        viol("native-cell-vectors|trr", "frame %d of the .trr file holds the box words %s, the trajectory's vectors are %s" % (f, [float(v) for v in fq(bxs)], None if bx_ is None else bx_[f].ravel().tolist()), rp)
+                        break
+                    if fq(xs) != exact(xy_[f]):
+                        viol("native-layout|value|trr|bytes", "frame %d of the .trr file does not hold the float32 coordinates of the trajectory, atom by atom" % f, rp)
+                        break
                 continue
             if what == "txt":
                 raw, f = data
